@@ -264,6 +264,11 @@ def is_zero_fill(v):
     return v.alloc in ('zeros', 'zeros_like') or (v.fill is not None and has_const(v.fill) and cval(v.fill) == 0 and v.alloc in ('full', 'full_like'))
 
 
+def is_table(lc):
+    """A literal 2-D table: ('c', [row tuple, ...])."""
+    return lc is not None and bool(lc[1]) and all(isinstance(r, (tuple, list)) for r in lc[1])
+
+
 def closes_wrap(cmp, target_text):
     """x == 1 / x >= 1 (either operand order) on the value whose text is target_text."""
     nc = norm_cmp(cmp)
@@ -317,6 +322,10 @@ class NumpyModel:
             if (sl is not None and (r.ty in ('int', 'float', 'bool', 'FloatWithUnit') or sr == sl)) or \
                     (sr is not None and l.ty in ('int', 'float', 'bool', 'FloatWithUnit')):
                 out = out.w(symlen=sl if sl is not None else sr)
+        # arithmetic with (a row of) a literal table remembers the table
+        tb = [x.tbl if x.tbl is not None else (x.litconst if (x.ty == 'ndarray' and is_table(x.litconst)) else None) for x in (l, r)]
+        if (tb[0] is None) != (tb[1] is None):
+            out = out.w(tbl=tb[0] if tb[0] is not None else tb[1])
         g = self.geo_binop(interp, o, l, r, node)
         out = out.w(geo=g)
         # axes: broadcasting keeps the axes of the higher-rank operand when known
